@@ -382,10 +382,16 @@ package core
 //@ spec wrap8(v int) int = (v + 128) % 256 - 128
 //@ spec unpExp(s string) int = s[0] == 2 ? wrap8(255 - (s[1] ^ 128)) : wrap8(s[1] ^ 128)
 //@ spec intableS(s string, exp int8, xor byte) bool
+// intable: a packed number is handed to the integer decoder only when it has no fractional part, at most 19
+// digits, and its packed form lies between the packed forms of MinInt64 and MaxInt64 (so that unpackInt's
+// arithmetic stays within int64)
 //@ func intable(s, exp, xor) (r)
-//@   assumed
 //@   pure
+//@   arith wrap
+//@   requires len(s) >= 3
 //@   defines r == intableS(s, exp, xor)
+//@   ensures! small_exponent: r ==> 0 <= exp && exp <= 19
+//@   ensures! in_int64_range: r ==> PackedMinInt64 <= s && s <= PackedMaxInt64
 //@ func unpackInt(s, sign, exp, xor) (r)
 //@   assumed
 //@   pure
